@@ -93,6 +93,7 @@ type ftIndex struct {
 
 type model struct {
 	ci      bool
+	ciTable bool // the case-insensitive collation is the table default (else declared per column)
 	rows    map[int]*doc
 	indexes []ftIndex
 	extra   bool // column z added
@@ -100,7 +101,7 @@ type model struct {
 
 func (m *model) colDefs() string {
 	coll := ""
-	if m.ci {
+	if m.ci && !m.ciTable {
 		coll = " COLLATE utf8mb4_0900_ai_ci"
 	}
 	s := "id INT PRIMARY KEY, title VARCHAR(200)" + coll + ", body TEXT" + coll + ", n INT"
@@ -111,7 +112,11 @@ func (m *model) colDefs() string {
 }
 
 func (m *model) createTable(name string) []string {
-	out := []string{"CREATE TABLE " + name + " (" + m.colDefs() + ")"}
+	tcoll := ""
+	if m.ci && m.ciTable {
+		tcoll = " COLLATE utf8mb4_0900_ai_ci"
+	}
+	out := []string{"CREATE TABLE " + name + " (" + m.colDefs() + ")" + tcoll}
 	for _, ix := range m.indexes {
 		out = append(out, "ALTER TABLE "+name+" ADD FULLTEXT INDEX "+ix.name+" ("+strings.Join(ix.cols, ", ")+")")
 	}
@@ -270,6 +275,26 @@ func eqInts(a, b []int) bool {
 
 const dupFinding = "C51-dup-rows"
 
+// rewriteFinding: a table rewrite (ALTER TABLE ... DROP COLUMN) rebuilds the full-text tables
+// with the table's default collation instead of the collation of the indexed columns.
+const rewriteFinding = "C51-rewrite-collation"
+
+func rewriteWitness(fail func(string, ...any)) (bool, string) {
+	f := fx.New(fx.Opts{})
+	defer f.Close()
+	s := f.NewSession("", "", "")
+	s.MustExec(fail,
+		"CREATE TABLE t (id INT PRIMARY KEY, title VARCHAR(200) COLLATE utf8mb4_0900_ai_ci, z INT, FULLTEXT KEY ft (title))",
+		"INSERT INTO t VALUES (1, 'Cat', 0)")
+	r0 := s.Exec("SELECT id FROM t WHERE MATCH(title) AGAINST ('cat')")
+	s.MustExec(fail, "ALTER TABLE t DROP COLUMN z")
+	r := s.Exec("SELECT id FROM t WHERE MATCH(title) AGAINST ('cat')")
+	if !r.OK() || !r0.OK() {
+		fail("witness query failed: %s / %s", r0, r)
+	}
+	return !eqInts(idsOf(r), []int{1}), fmt.Sprintf("title VARCHAR COLLATE utf8mb4_0900_ai_ci holding 'Cat': MATCH(title) AGAINST ('cat') returned %v before and %v after ALTER TABLE t DROP COLUMN z (expected [1] both times)", idsOf(r0), idsOf(r))
+}
+
 // upsertFinding: REPLACE / INSERT ... ON DUPLICATE KEY UPDATE on an existing key leaves the
 // full-text entries of the rejected row behind (MultiTableEditor.Insert writes the full-text
 // tables before the parent table reports the duplicate key).
@@ -402,11 +427,13 @@ func TestC51(t *testing.T) {
 	// excluded by construction while the finding reproduces and is listed
 	upsertRepro, _ := upsertWitness(t.Fatalf)
 	excludeUpsertConflicts := upsertRepro && kf.Listed(upsertFinding)
+	rewriteRepro, _ := rewriteWitness(t.Fatalf)
+	excludeRewrite := rewriteRepro && kf.Listed(rewriteFinding)
 	rapid.Check(t, func(rt *rapid.T) {
 		st.Eval()
 		f := fx.New(fx.Opts{})
 		defer f.Close()
-		m := &model{ci: rapid.Bool().Draw(rt, "ci"), rows: map[int]*doc{}, indexes: genIndexes(rt)}
+		m := &model{ci: rapid.Bool().Draw(rt, "ci"), ciTable: rapid.Bool().Draw(rt, "ciTable"), rows: map[int]*doc{}, indexes: genIndexes(rt)}
 		c := &checker{st: st, fail: rt.Fatalf, s: f.NewSession("", "", ""), m: m}
 		for _, q := range m.createTable("t") {
 			c.must(q)
@@ -570,6 +597,10 @@ func TestC51(t *testing.T) {
 					c.must("ALTER TABLE t ADD FULLTEXT INDEX " + m.indexes[ix].name + " (" + strings.Join(cols, ", ") + ")")
 				}
 			case "alter-unrelated":
+				if m.ci && !m.ciTable && excludeRewrite {
+					st.Excluded(rewriteFinding)
+					continue
+				}
 				if !m.extra {
 					c.must("ALTER TABLE t ADD COLUMN z INT")
 					m.extra = true
@@ -597,8 +628,10 @@ func TestC51(t *testing.T) {
 			}
 		}
 		st.Class(fmt.Sprintf("indexes:%d", len(m.indexes)))
-		if m.ci {
-			st.Class("collation:ai_ci")
+		if m.ci && m.ciTable {
+			st.Class("collation:ai_ci-table-default")
+		} else if m.ci {
+			st.Class("collation:ai_ci-column")
 		} else {
 			st.Class("collation:bin")
 		}
@@ -633,6 +666,23 @@ func TestC51Known(t *testing.T) {
 	st.NonTrivial(nil, dupFinding)
 	if !eqInts(got, []int{1, 1}) || !kf.Suppress(st, dupFinding) {
 		t.Errorf("SELECT id FROM t WHERE MATCH(title) AGAINST ('cat dog') over rows (1,'cat dog'),(2,'fish') returned ids %v, expected [1]", got)
+	}
+}
+
+func TestC51KnownRewrite(t *testing.T) {
+	st := stats.New("C51", "known-rewrite")
+	defer st.Flush()
+	st.Eval()
+	repro, desc := rewriteWitness(t.Fatalf)
+	if !repro {
+		t.Logf("finding %s no longer reproduces", rewriteFinding)
+		st.Class("witness-fixed:" + rewriteFinding)
+		return
+	}
+	st.Class("witness-reproduces:" + rewriteFinding)
+	st.NonTrivial(nil, rewriteFinding)
+	if !kf.Suppress(st, rewriteFinding) {
+		t.Errorf("%s", desc)
 	}
 }
 
